@@ -43,6 +43,48 @@ CHECKS["C07"] = dict(
     ref="6/C07",
 )
 
+CHECKS["C08"] = dict(
+    text="encode_perm_invariant / encode_seed_free (any reordering of dict, set and frozenset parts at any depth leaves the exact "
+    "protocol-3 byte stream fed to the digest unchanged), encode_injective_partial + type discrimination via a verified decoder of "
+    "the opcode stream (values that never take the digest fallback), F6/F12 witnesses; the Lean encode is compared byte for byte "
+    "with the real Hasher stream, digests are recomputed in fresh interpreters under several PYTHONHASHSEEDs and insertion orders, "
+    "all-pairs discrimination over the generated universe.",
+    note="modelled not verified: md5/sha1 (theorems are about the stream handed to the digest; H is a parameter), pickle._Pickler "
+    "beyond the modelled opcode fragment, sorted() raising TypeError iff two keys are incomparable; aliased tuples and NaN keys are "
+    "outside the domain; F12 (fallback collision) is a known finding.",
+    technique="Lean 4 proof (permutation invariance + verified stream decoder) + byte-exact differential correspondence",
+    ref="6/C08",
+)
+CHECKS["C15"] = dict(
+    text="resolve_pos/neg/ge_one/zero_rejected, one_is_sequential, cpu_count_ge_one, cpu_count_le_each_limit, "
+    "nested_default_no_processes (induction on nesting depth) over the Lean model of effective_n_jobs of every backend class, "
+    "get_nested_backend and loky's cpu_count; exhaustive correspondence over n_jobs in [-2c,2c], c in 1..32, backend classes, nesting "
+    "levels, thread/daemon guards, affinity masks and LOKY_MAX_CPU_COUNT.",
+    note="partial: 'never more than n_jobs tasks at once' beyond the arithmetic is a property of ThreadPool/loky having exactly n "
+    "workers - measured in the thorough tier, not proved. cpu-count sources partly mocked in subprocesses.",
+    technique="Lean 4 proof (decision logic, induction on depth) + exhaustive decision-table correspondence",
+    ref="6/C15",
+)
+CHECKS["C17"] = dict(
+    text="exit_restores (structural induction over trees of with-blocks, normal and exceptional exit), thread_frame / "
+    "thread_noninterference (any interleaving), precedence (explicit > innermost > outer > default, all 8 keys), "
+    "sharedmem_is_threads, prefer_is_hint over the Lean model of parallel_config/_get_active_backend/Parallel.__init__; programs of "
+    "nested blocks across 1-3 threads are run on the real code and compared at every program point.",
+    note="modelled not verified: threading.local, third-party/dask backends, multiprocessing-disabled mode; one known finding "
+    "(context n_jobs dropped when a context's process backend is replaced for require='sharedmem', pinned by joblib's own tests).",
+    technique="Lean 4 proof (structural induction on config programs) + differential correspondence on generated programs",
+    ref="6/C17",
+)
+CHECKS["C20"] = dict(
+    text="refcount_refines, delete_iff_zero, never_delete_unregistered, counts_positive, malformed_is_noop, "
+    "eof_deletes_rest_folders_last, parse_send_format for request histories of any length over the Lean model of "
+    "resource_tracker.main; histories (incl. malformed lines, several clients exiting or SIGKILLed) are sent to the REAL tracker "
+    "process over its pipe and on-disk existence is compared with the model and with a plain refcount oracle after every request.",
+    note="modelled not verified: pipe EOF and write atomicity, readline, the warnings module, os.unlink/rmtree/sem_unlink.",
+    technique="Lean 4 proof (induction over the request log, refinement to an abstract refcount) + differential correspondence with the real tracker process",
+    ref="6/C20",
+)
+
 NOT_BUILT = "check not built yet in this round (planned: see DESIGN.md section 6); not claimed"
 NOT_APPLICABLE = {}
 
